@@ -45,7 +45,9 @@ def _evaluate_multinet(multinet, levelorder, ctrl_variables, **kwargs):
     rel_nets = _relevant_nets(multinet, levelorder)
     for net_name in multinet['nets'].keys():
         net = multinet['nets'][net_name]
-        rel_levelorder = levelorder[rel_nets[net_name]]
+        # rel_nets[net_name] is a scalar bool (not a row mask): hand all (controller, net) pairs of the
+        # level to _evaluate_net, which only uses them for repair_control after a failed calculation
+        rel_levelorder = levelorder
         ctrl_variables['nets'][net_name] = _evaluate_net(
             net, rel_levelorder, ctrl_variables['nets'][net_name], **kwargs) if np.any(
             rel_nets[net_name]) else ctrl_variables['nets'][net_name]
